@@ -79,8 +79,11 @@ type WorldSpec struct {
 	HandlerMode bool `json:"handler_mode,omitempty"`
 	// Replicas: number of service replicas of the deployment (default 1). They load the same configuration
 	// file and share the Redis servers; each has its own memory (in-memory store, caches, TLS pool).
-	Replicas int       `json:"replicas,omitempty"`
-	IdPs     []IdPSpec `json:"idps"`
+	Replicas int `json:"replicas,omitempty"`
+	// RedisDownAtBoot names a Redis store kind whose server refuses connections while the service starts (it is
+	// back as soon as start-up is over).
+	RedisDownAtBoot string    `json:"redis_down_at_boot,omitempty"`
+	IdPs            []IdPSpec `json:"idps"`
 }
 
 type IdPSpec struct {
